@@ -1,7 +1,7 @@
 """Per-property configuration: which binary/flavour, how many cases, gates, evidence text."""
 
 RUNNER_TUS = {
-    'runner': ['rc_driver.cpp', 'pbt_movegen.cpp', 'pbt_position.cpp', 'pbt_moves.cpp', 'exh_tables.cpp', 'pbt_eval.cpp', 'pbt_book.cpp', 'pbt_search.cpp', 'sched_uci.cpp'],
+    'runner': ['rc_driver.cpp', 'pbt_movegen.cpp', 'pbt_position.cpp', 'pbt_moves.cpp', 'exh_tables.cpp', 'pbt_eval.cpp', 'pbt_book.cpp', 'pbt_search.cpp', 'sched_uci.cpp', 'pbt_session.cpp'],
 }
 
 ORACLE_ASSUMPTION = ('ref/refchess.h (independent mailbox rules oracle) is correct; it is validated on every run by '
@@ -276,6 +276,20 @@ PROPS['C06'] = dict(
                gates={'c06:stop_delivered_at_thread_start': 10, 'c06:stop_delivered_at_go_entry': 10, 'c06:stop_delivered_at_go_after_init': 10, 'c06:stop_delivered_at_go_after_reset': 10,
                       'c06:stop_delivered_at_node_visit': 40, 'c06:stop_delivered_at_iteration_end': 10, 'c06:stop_delivered_at_before_bestmove': 5}, min_nontrivial=150),
     thorough=dict(cases=400, shards=16, scale=3, race_shards=16, race_cases=40, race_min_sessions=400, min_nontrivial=3000),
+)
+
+PROPS['C10'] = dict(
+    level='exploration', engine='rapidcheck + libFuzzer',
+    technique='structure-aware fuzzing of well-formed UCI sessions (rapidcheck tapes and coverage-guided libFuzzer over the same tape decoder) with AddressSanitizer / UndefinedBehaviorSanitizer as the oracle',
+    level_text=('Well-formed UCI sessions are decoded from a choice tape (position startpos|fen + oracle-legal moves incl. long legal games of 700-1200 plies, go with depth 1-100 / nodes / movetime / clocks / infinite+stop / searchmoves, '
+                'moves, perft, printboard, hash, staticeval, uci, setoption with generated book files, ucinewgame) and fed to the in-process engine (reader thread + detached search thread) built with ASan + UBSan; '
+                'a deterministic boundary suite (games of 730/799/801/1000 plies, go depth 40..1000, 218 legal moves, 9-10 pieces of a kind, searchmoves with every move) runs first in every shard. Any sanitizer report or crash is a violation.'),
+    level_note='Uninitialised-value USE is only partially covered (UBSan invalid-value loads; no MSan-instrumented libstdc++ in this image); searches are bounded by a node-visit cap delivered from the search thread.',
+    rule='evaluations = sessions executed. Non-trivial = distinct sessions that cross at least one buffer boundary (game >= 720 plies, go depth > 40, >= 128 legal moves, >= 9 pieces of a kind).',
+    assumptions=['generated sessions are well-formed: legal positions and moves per the rules oracle, go only when a legal move exists, next command after bestmove'],
+    quick=dict(cases=110, shards=16, scale=6,
+               gates={'c10:boundary_depth_gt_40': 16, 'c10:boundary_heavy_position': 16, 'c10:go': 700, 'c10:game_ge_720_plies': 10, 'c10:depth_gt_40': 20, 'c10:ge9_of_a_kind': 10}, min_nontrivial=100),
+    thorough=dict(cases=1200, shards=16, scale=6, min_nontrivial=3000),
 )
 
 HOOK_COMMITS = ['2ee17ca']
